@@ -138,6 +138,7 @@ type menuProgram struct {
 	prints      []string    // expected multiset of printed labels
 	before      [][2]string // causal order: the first label is printed before the second
 	contraction bool        // uses split or a multi-name declaration
+	respelled   bool        // a variant of an earlier program in which binders re-use the spelling of a consumed name
 }
 
 var runMenu = []menuProgram{
@@ -282,12 +283,12 @@ prc[b] : lin 1 = u : lin 1 <- new (close self); r : lin 1 <- new (send g<u, self
 prc[f] : lin 1 = fwd self a
 prc[g] : lin 1 = fwd self f
 prc[b] : lin 1 = wait g; print y; close self`},
-	{name: "m21", contraction: true,
+	{name: "m21", respelled: true, contraction: true,
 		prints: []string{"once", "p", "q"},
 		before: [][2]string{{"once", "p"}, {"p", "q"}},
 		src: `prc[x] : rep 1 = print once; close self
 prc[b] : lin 1 = <x, v> <- split x; wait x; print p; wait v; print q; close self`},
-	{name: "m22", contraction: true,
+	{name: "m22", respelled: true, contraction: true,
 		prints: []string{"once", "p", "q"},
 		before: [][2]string{{"once", "p"}, {"p", "q"}},
 		src: `prc[x] : rep 1 = print once; close self
@@ -353,6 +354,46 @@ prc[b] : lin 1 =
 		before: [][2]string{},
 		src: `prc[a, b] : rep 1 = t : rep 1 <- new close self; wait t; print twice; close self
 prc[c] : lin 1 = wait a; wait b; print fin; close self`},
+	{name: "r01", respelled: true, contraction: false,
+		prints: []string{"pu", "pv", "p", "q"},
+		before: [][2]string{{"pu", "p"}, {"p", "q"}, {"pv", "q"}},
+		src: `type A = lin 1 * 1
+let pr1() : lin 1 = print pu; close self
+let pr2() : lin 1 = print pv; close self
+prc[a] : A = u <- new pr1(); v <- new pr2(); send self<u, v>
+prc[b] : lin 1 = <x, a> <- recv a; wait x; print p; wait a; print q; close self`},
+	{name: "r02", respelled: true, contraction: false,
+		prints: []string{"sel", "left"},
+		before: [][2]string{{"sel", "left"}},
+		src: `type C = lin +{l : 1, r : 1}
+prc[a] : C = t : lin 1 <- new (close self); print sel; self.l<t>
+prc[b] : lin 1 = case a (l<a> => print left; wait a; close self | r<a> => print right; wait a; close self)`},
+	{name: "r03", respelled: true, contraction: false,
+		prints: []string{"dn", "fin"},
+		before: [][2]string{{"dn", "fin"}},
+		src: `type D = rep \/ lin 1
+prc[a] : D = t : rep 1 <- new (close self); print dn; cast self<t>
+prc[b] : lin 1 = a <- shift a; wait a; print fin; close self`},
+	{name: "r04", respelled: true, contraction: false,
+		prints: []string{"s", "s"},
+		before: [][2]string{},
+		src: `type nat = lin +{zero : 1, succ : nat}
+let zero() : nat = t : lin 1 <- new close self; self.zero<t>
+let succ(n : nat) : nat = self.succ<n>
+let count(x : nat) : lin 1 =
+    case x ( zero<x> => wait x; close self
+           | succ<x> => print s; count(x) )
+prc[b] : lin 1 =
+    n <- new zero();
+    n <- new succ(n);
+    n <- new succ(n);
+    count(n)`},
+	{name: "r05", respelled: true, contraction: false,
+		prints: []string{"got", "fin"},
+		before: [][2]string{{"got", "fin"}},
+		src: `type F = lin 1 -* 1
+prc[a] : F = <x, y> <- recv self; wait x; print got; close y
+prc[b] : lin 1 = u : lin 1 <- new (close self); u : lin 1 <- new (send a<u, self>); wait u; print fin; close self`},
 }
 
 func orderRespected(prints []string, before [][2]string) bool {
@@ -405,6 +446,9 @@ func runMenuProgram(p menuProgram, mode process.Execution_Version, monitor bool)
 		vn.Assert("C04.print-order-respects-causality", orderRespected(r.Prints, p.before))
 	}
 	vn.Assert("C13.no-unordered-conflicting-accesses", r.Races == 0)
+	if p.respelled && (mode != process.NON_POLARIZED_SYNC || !p.contraction) {
+		vn.Assert("C14.respelled-program-behaves-like-the-original", r.Terminated && sameMultiset(r.Prints, p.prints))
+	}
 }
 
 // ZZRunMenu: params FIRST..LAST select the slice of the menu, MODES the number of modes.
@@ -414,6 +458,9 @@ func ZZRunMenu() {
 		last = len(runMenu) - 1
 	}
 	k := first + vn.Pick(last-first+1)
+	if vn.Param("RESPELLED", 0) == 1 {
+		vn.Assume(runMenu[k].respelled)
+	}
 	if vn.Param("LIGHT", 0) == 1 {
 		// the programs whose exploration stays small with a monitor attached
 		heavy := map[string]bool{"m11": true, "m15": true, "m16": true, "m23": true, "m24": true, "m25": true}
@@ -424,3 +471,114 @@ func ZZRunMenu() {
 }
 
 func init() { vn.Register("zzpub.ZZRunMenu", ZZRunMenu) }
+
+// Ill-typed programs, one broken premise each. The typechecker must reject them; each one
+// misbehaves when run (protocol error, or a process stuck forever), so a hole in the checker that
+// lets one through shows up as a violated run (C01) and as a wrong verdict (C07).
+var illTypedMenu = []struct{ name, what, src string }{
+	{"x1", "a channel of pair type is waited on", `prc[a] : lin 1 * 1 = u : lin 1 <- new close self; v : lin 1 <- new close self; send self<u, v>
+prc[b] : lin 1 = wait a; close self`},
+	{"x2", "a label that the choice type does not offer is selected", `type C = lin +{l : 1}
+prc[a] : C = t : lin 1 <- new close self; self.r<t>
+prc[b] : lin 1 = case a (l<z> => wait z; close self)`},
+	{"x3", "the payload of a pair (itself a pair) is used as a unit", `type P = lin (1 * 1) * 1
+let unit() : lin 1 = close self
+let pair() : lin 1 * 1 = a <- new unit(); b <- new unit(); send self<a, b>
+prc[a] : P = u <- new pair(); v <- new unit(); send self<u, v>
+prc[b] : lin 1 = <x, y> <- recv a; wait x; wait y; close self`},
+	{"x5", "a left-nested and a right-nested product are passed off as the same named type", `type L = (1 * 1) * 1
+let unit() : 1 = close self
+let pair() : 1 * 1 = a <- new unit(); b <- new unit(); send self<a, b>
+let left() : (1 * 1) * 1 = a <- new pair(); b <- new unit(); send self<a, b>
+let right() : 1 * (1 * 1) = a <- new unit(); b <- new pair(); send self<a, b>
+let both() : ((1 * 1) * 1) * (1 * (1 * 1)) = a <- new left(); b <- new right(); send self<a, b>
+let useL(c : L) : 1 = <x, y> <- recv c; <x1, x2> <- recv x; wait x1; wait x2; wait y; close self
+prc[p] : L * L = both()
+prc[main] : 1 = <u, v> <- recv p; k1 <- new useL(u); k2 <- new useL(v); wait k1; wait k2; close self`},
+	{"x6", "a linear channel is used twice", `prc[a] : lin 1 = close self
+prc[b] : lin 1 = wait a; wait a; close self`},
+	{"x7", "a label is sent to a process that expects a pair", `type F = lin 1 -* 1
+prc[a] : F = <x, y> <- recv self; wait x; close y
+prc[b] : lin 1 = u : lin 1 <- new close self; r : lin 1 <- new (a.l<self>); wait r; drop u; close self`},
+}
+
+// ZZRunIllTyped: every program of illTypedMenu is rejected; if one is accepted it is run (in the
+// default mode, under every schedule) and must then still behave.
+func ZZRunIllTyped() {
+	p := illTypedMenu[vn.Pick(len(illTypedMenu))]
+	r := RunProgram(p.src, process.NORMAL_ASYNC, true)
+	vn.Assert("RUN.ill-typed-menu-program-parses", !r.ParseErr)
+	if r.ParseErr {
+		return
+	}
+	vn.Assert("C07.ill-typed-program-is-rejected", r.TypeErr)
+	vn.Assert("C01.accepted-program-runs-safely", r.TypeErr || (r.Terminated && r.LiveAny == 0))
+	vn.Observe("rejected", r.TypeErr)
+}
+
+func init() { vn.Register("zzpub.ZZRunIllTyped", ZZRunIllTyped) }
+
+// ZZMenuVerdicts: the typechecker's verdict on every program of both menus (no execution): the
+// well-typed ones are accepted (in particular the respelled variants: re-using the spelling of
+// a consumed name changes nothing), the ill-typed ones rejected, and the worker always answers.
+func ZZMenuVerdicts() {
+	n := len(runMenu) + len(illTypedMenu)
+	k := vn.Pick(n)
+	src, wellTyped, respelled := "", true, false
+	if k < len(runMenu) {
+		src, respelled = runMenu[k].src, runMenu[k].respelled
+	} else {
+		src, wellTyped = illTypedMenu[k-len(runMenu)].src, false
+	}
+	procs, assumed, genv, perr := parser.ParseString(src)
+	vn.Assert("C11.menu-program-parses", perr == nil)
+	if perr != nil {
+		return
+	}
+	err := process.Typecheck(procs, assumed, genv)
+	vn.Drain()
+	if wellTyped {
+		vn.Assert("C07.well-typed-program-is-accepted", err == nil)
+		if respelled {
+			vn.Assert("C14.respelling-does-not-change-the-verdict", err == nil)
+		}
+	} else {
+		vn.Assert("C07.ill-typed-program-is-rejected", err != nil)
+	}
+	vn.Assert("C09.typechecker-answers-on-real-programs", true)
+	vn.Observe("accepted", err == nil)
+}
+
+func init() { vn.Register("zzpub.ZZMenuVerdicts", ZZMenuVerdicts) }
+
+// ZZRunTwice (C19): a history of two programs in one host process. The first program is
+// accepted-and-run, rejected, or unparseable; whatever it leaves behind (parked process
+// goroutines, a blocked checker goroutine, channels, counters) must not change the verdict, the
+// printed labels or the quiescent state of the second one.
+func ZZRunTwice() {
+	first := []string{
+		runMenu[6].src,  // negative forward, leaves nothing
+		runMenu[8].src,  // drop
+		runMenu[13].src, // multi-name declaration (duplication)
+		illTypedMenu[0].src,
+		illTypedMenu[1].src,
+		"prc[a : = \n",
+		"",
+	}[vn.Pick(7)]
+	sec := []int{0, 2, 4, 7, 9}[vn.Pick(5)]
+	mode1 := process.Execution_Version(vn.Pick(2))
+	mode2 := process.Execution_Version(vn.Pick(2))
+	RunProgram(first, mode1, true)
+	p := runMenu[sec]
+	r := RunProgram(p.src, mode2, true)
+	ok := !r.ParseErr && !r.TypeErr && r.Terminated && sameMultiset(r.Prints, p.prints)
+	if mode2 == process.NORMAL_ASYNC {
+		ok = ok && r.LiveAny == 0
+	} else {
+		ok = ok && r.LiveRecv == 0
+	}
+	vn.Assert("C19.second-program-behaves-as-if-alone", ok)
+	vn.Observe("prints", joinStrings(sortedCopy(r.Prints)))
+}
+
+func init() { vn.Register("zzpub.ZZRunTwice", ZZRunTwice) }
